@@ -496,6 +496,22 @@ def build_examples(timeout=1800):
     return os.path.join(tdir, "release")
 
 
+def tlaps_check(chk, module, min_obligations, timeout=900):
+    """re-prove (no fingerprint cache) the theorems of spec/proofs/<module> with tlapm; a failed or missing
+    obligation is a tool error: the unbounded design-level argument no longer stands"""
+    pdir = os.path.join(SPEC, "proofs")
+    t0 = time.time()
+    p = subprocess.run(["timeout", str(timeout), "tlapm", "--threads", "8", "--cleanfp", "-I", "..", module], cwd=pdir,
+                       stdout=subprocess.PIPE, stderr=subprocess.STDOUT, text=True)
+    shutil.rmtree(os.path.join(pdir, ".tlacache", module.replace(".tla", ".tlaps")), ignore_errors=True)
+    m = re.search(r"All (\d+) obligations? proved", p.stdout)
+    if not m or int(m.group(1)) < min_obligations:
+        tail = "\n".join(l for l in p.stdout.splitlines() if not l.startswith(("Called", "Raised")))[-1500:]
+        raise ToolError("tlapm did not prove %s (expected >= %d obligations): %s" % (module, min_obligations, tail))
+    chk.extra.setdefault("tlaps_proofs", []).append({"module": "spec/proofs/" + module, "obligations_proved": int(m.group(1)),
+                                                     "wall_s": round(time.time() - t0, 1)})
+
+
 def apalache_check(pid, label, module_dir, module, args, timeout=900):
     """one apalache-mc check; returns wall seconds; raises ToolError on a counterexample or failure"""
     wd = workdir(pid)
